@@ -42,8 +42,8 @@ MIN_HITS = {
         'hook:tree_sum': 1, 'hook:tree_clip_by_global_norm': 1,
     },
     'thorough': {
-        'mon:mean': 40000, 'mon:zero': 8000, 'mon:nan': 80000, 'mon:hull': 40000, 'mon:order': 15000,
-        'mon:generator': 40000, 'mon:donation': 500000, 'mon:readonly': 100000, 'mon:structure': 40000, 'mon:sum': 25000,
+        'mon:mean': 30000, 'mon:zero': 5000, 'mon:nan': 60000, 'mon:hull': 30000, 'mon:order': 15000,
+        'mon:generator': 40000, 'mon:donation': 500000, 'mon:readonly': 100000, 'mon:structure': 40000, 'mon:sum': 20000,
         'mon:aggstate': 12000, 'mon:clipnorm': 8000, 'mon:clipdir': 12000, 'mon:clipident': 3000,
         'jax-leaves': 5000, 'np-leaves': 5000, 'single-client': 2000, 'clip-below': 2000,
         'clip-zero-tree': 200, 'hook:tree_mean': 2, 'hook:tree_sum': 1, 'hook:tree_clip_by_global_norm': 1,
